@@ -1,6 +1,7 @@
 package main
 
 import (
+	"sync/atomic"
 	"encoding/hex"
 	"fmt"
 	"go/types"
@@ -337,6 +338,17 @@ func init() {
 		b := st.fresh(8, "detrand")
 		st.assume(Ule(b, Const(8, 1)))
 		return ret(Eq(b, Const(8, 1)))
+	})
+	regIntrinsic(ndName("PublishLogStart"), func(w *Worker, st *State, f *Frame, x *ssa.Call, fv FuncV, a []Value) (Value, bool) {
+		st.pubMark = int(atomic.LoadInt64(&objSeq))
+		st.pubs = nil
+		return nil, true
+	})
+	regIntrinsic(ndName("Publications"), func(w *Worker, st *State, f *Frame, x *ssa.Call, fv FuncV, a []Value) (Value, bool) {
+		return ret(Const(64, uint64(len(st.pubs))))
+	})
+	regIntrinsic(ndName("PublishedFrozen"), func(w *Worker, st *State, f *Frame, x *ssa.Call, fv FuncV, a []Value) (Value, bool) {
+		return ret(st.pubFrozen())
 	})
 	regIntrinsic(ndName("Thorough"), func(w *Worker, st *State, f *Frame, x *ssa.Call, fv FuncV, a []Value) (Value, bool) {
 		return ret(Bool(theTier == "thorough"))
